@@ -9,7 +9,8 @@ import numpy as np
 from ..core import fmt, fmt_list, fmt_ints, fmt_opt, parse_rats, frac, err_kind, close, exact, floats
 
 ID = "C17"
-MODULES = ["TWV.Properties.C17"]
+MODULES = ["TWV.Properties.C17", "TWV.Tie.Vector"]
+TRANSLATORS = ["t3_vector"]
 RULE = ("random cases per helper (oversample lin/pc, extend lin/const in three directions with default or explicit end "
         "values, append_one_sample, integral rules, sum_over_indices, IntervalArray get/set/to_2d_array(_closed_intervals)/"
         "nr_of_full_intervals, process.average, average-of-oversampling round trip): arrays of 1..50 elements on a dyadic "
@@ -355,6 +356,16 @@ def oracle(c, io):
     elif k == "integral":
         if c["rule"] not in ("trapezoid", "rectangle"):
             return "unknown rule accepted"
+        x = floats(A(c, "x"))
+        for i in range(m - 1):
+            want = (af[i] + af[i + 1]) / 2 * (x[i + 1] - x[i]) if c["rule"] == "trapezoid" else af[i] * (x[i + 1] - x[i])
+            if len(r) != m - 1 or abs(r[i] - want) > 1e-9 * max(abs(want), abs(af[i]) * (x[i + 1] - x[i]), 1e-300):
+                return f"{c['rule']} integral of interval {i} is {r[i] if i < len(r) else None!r}, the rule gives {want!r}"
+    elif k == "sumidx":
+        idx = c["idx"]
+        want = [sum(af[s_:e_]) for s_, e_ in zip(idx[:-1], idx[1:])]
+        if len(r) != len(want) or any(abs(u - v) > 1e-9 * max(1.0, abs(v)) for u, v in zip(r, want)):
+            return f"sum_over_indices({idx}) = {r}, expected {want}"
     return None
 
 
